@@ -8,6 +8,7 @@ import (
 	"strings"
 	"sync"
 	"sync/atomic"
+	"time"
 
 	"github.com/libp2p/go-libp2p/core/network"
 	ma "github.com/multiformats/go-multiaddr"
@@ -124,6 +125,8 @@ type NodeOptions struct {
 	Seed      string
 	Blacklist []string
 	OnLog     func(ev LogEvent)
+	// QUIC: also listen on /ip4/<IP>/udp/0/quic-v1
+	QUIC bool
 	// Setup runs before Start (register handlers, tune hooks).
 	Setup func(c *p2p.ExtendedConnection)
 }
@@ -137,6 +140,9 @@ func StartNode(o NodeOptions) (*Node, error) {
 		Version:            Version,
 		BlacklistedIPs:     o.Blacklist,
 		ConnectionSecurity: "noise",
+	}
+	if o.QUIC {
+		cfg.Addresses = append(cfg.Addresses, "/ip4/"+o.IP+"/udp/0/quic-v1")
 	}
 	c := p2p.NewExtendedConnection(lg, cfg)
 	if o.Setup != nil {
@@ -166,6 +172,66 @@ func (n *Node) Connected(other *Node) bool {
 }
 
 func (n *Node) Stop() { _ = n.Conn.Stop() }
+
+// DoubleConnect makes a dial b over b's QUIC address while b dials a over a's TCP address at the same
+// moment, until each sees two connections to the other (one peer, two transports, two different
+// remote addresses); false if that did not work out within the given number of rounds (then the
+// two are left disconnected).
+func DoubleConnect(a, b *Node, rounds int) bool {
+	only := func(n *Node, proto int) *p2p.AddrInfo {
+		for _, ad := range n.Conn.VerifPeer().VerifHost().Addrs() {
+			if _, err := ad.ValueForProtocol(proto); err == nil {
+				return &p2p.AddrInfo{ID: n.ID(), Addrs: []ma.Multiaddr{ad}}
+			}
+		}
+		return nil
+	}
+	bQUIC, aTCP := only(b, ma.P_QUIC_V1), only(a, ma.P_TCP)
+	if bQUIC == nil || aTCP == nil {
+		return false
+	}
+	conns := func(x, y *Node) int { return len(x.Conn.VerifPeer().VerifHost().Network().ConnsToPeer(y.ID())) }
+	wait := func(d time.Duration, cond func() bool) bool {
+		end := time.Now().Add(d)
+		for time.Now().Before(end) {
+			if cond() {
+				return true
+			}
+			time.Sleep(20 * time.Millisecond)
+		}
+		return cond()
+	}
+	for i := 0; i < rounds; i++ {
+		var wg sync.WaitGroup
+		start := make(chan struct{})
+		wg.Add(2)
+		go func() {
+			defer wg.Done()
+			<-start
+			ctx, cancel := context.WithTimeout(context.Background(), 5*time.Second)
+			defer cancel()
+			a.Conn.SwarmClear(b.ID())
+			_ = a.Conn.Connect(ctx, *bQUIC)
+		}()
+		go func() {
+			defer wg.Done()
+			<-start
+			ctx, cancel := context.WithTimeout(context.Background(), 5*time.Second)
+			defer cancel()
+			b.Conn.SwarmClear(a.ID())
+			_ = b.Conn.Connect(ctx, *aTCP)
+		}()
+		close(start)
+		wg.Wait()
+		if wait(500*time.Millisecond, func() bool { return conns(a, b) >= 2 && conns(b, a) >= 2 }) {
+			return true
+		}
+		_ = a.Conn.Disconnect(b.ID())
+		_ = b.Conn.Disconnect(a.ID())
+		wait(2*time.Second, func() bool { return conns(a, b) == 0 && conns(b, a) == 0 })
+	}
+	return false
+}
 
 // CMA is a network.ConnMultiaddrs for driving Intercept* directly.
 type CMA struct{ Local, Remote ma.Multiaddr }
